@@ -49,13 +49,14 @@ type evmCase struct {
 }
 
 type wcase struct {
-	Kind string `json:"kind"` // neo | amp | native | evm | pool | validate
+	Kind string `json:"kind"` // neo | amp | xloop | native | evm | pool | validate
 	// neo
 	Code     []byte `json:"code,omitempty"`
 	GasLimit uint64 `json:"gl,omitempty"`
 	GasPrice uint64 `json:"gp,omitempty"`
 	Signers  []int  `json:"sg,omitempty"`
 	Probe    bool   `json:"probe,omitempty"` // amp: enter the node routes even when the metered run went over its bound
+	Observe  bool   `json:"obs,omitempty"`   // xloop: every loop iteration enters a service handler, so the probe can count (and stop) the real PreExecuteContract
 	// native
 	History []natCall `json:"hist,omitempty"`
 	Call    *natCall  `json:"call,omitempty"`
@@ -79,6 +80,7 @@ type pathRes struct {
 	Reached []string `json:"rc,omitempty"` // syscall / native handlers entered (sorted, distinct)
 	Ms      int64    `json:"ms"`
 	Panic   string   `json:"panic,omitempty"` // recovered Go panic value
+	Abort   string   `json:"abort,omitempty"` // the worker's probe stopped the request: its deterministic counter passed the stated bound
 	Stack   string   `json:"stack,omitempty"`
 }
 
@@ -95,6 +97,8 @@ type wreply struct {
 	EvmGas  []uint64  `json:"evmgas,omitempty"` // gas used by each EVM transaction of the case
 	Valid   pathRes   `json:"valid"`            // raw-bytes decoding + stateless/stateful validation route
 	Amp     *ampRes   `json:"amp,omitempty"`    // kind amp: deterministic resource counters of the metered run
+	PreSB   pathRes   `json:"presb"`            // kind xloop: pre-execution on a SmartContract built as PreExecuteContract builds it, but with a finite gas budget
+	Loop    *loopRes  `json:"loop,omitempty"`   // kind xloop: service calls / steps counted per request
 }
 
 // ampRes: counters of the metered run of an amplification program (worker side: meterAmp) and of
@@ -114,6 +118,26 @@ type ampRes struct {
 	PreFirst   int `json:"pf"`
 	PrePeak    int `json:"pp"`
 }
+
+// loopRes: per-request counters of a cross-contract loop case. Calls = service-handler entries of ALL
+// nested engines of the request (each is one executed opcode); Steps = SmartContract.ExecStep as read
+// at the last service call (pre-execution only).
+type loopRes struct {
+	BlockCalls int    `json:"bc"`
+	PreCalls   int    `json:"pc"`
+	PreSteps   int    `json:"ps"`
+	SBCalls    int    `json:"sc"`
+	SBSteps    int    `json:"ss"` // ExecStep when the finite-gas pre-execution ended
+	SBGas      uint64 `json:"sg"` // gas it consumed
+	SBBudget   uint64 `json:"sb"`
+}
+
+// xloopStepSlack: service calls a pre-execution request may be seen to enter beyond VM_STEP_LIMIT before the probe stops it.
+const xloopStepSlack = 1024
+
+// xloopGasBudget is the finite budget of the sandboxed pre-execution: more than VM_STEP_LIMIT (400000) steps can
+// cost with the most expensive opcode of the family (APPCALL, 10 gas).
+const xloopGasBudget = 6000000
 
 // ampBound is the number of live VM items a program may hold after `ops` executed opcodes.
 func ampBound(ops int) int { return 65536 + 1024*ops }
